@@ -97,6 +97,16 @@ def generate(rng, tier, focus):
             reacts.append((rng.randrange(3), ["unsub-self"]))
         atts0 = [s0] if rng.random() < 0.7 else [s0, scen.script([rng.choice(items) for _ in range(3)], rng.choice(["c", ("e", 5)]))]
         cases.append((scn(srcs=[src(atts0, rng.random() < 0.15), src([s1], rng.random() < 0.3)], handles=1, script_=[sub(0, p, *reacts)]), {"k": "cold"}))
+    # a synchronous cold source below ref_count / replay, the only subscriber leaves from inside the emission
+    for _ in range(1500 if thorough else 250):
+        xs = [rng.choice(items) for _ in range(rng.randrange(1, 7))]
+        s0 = scen.script(xs, rng.choice(["c", ("e", 5), "s"]))
+        kind = rng.choice(["refcount", "replay"])
+        p = ender(rng, scen.rand_chain(rng, ["conn", 0], rng.choice([0, 1])))
+        if "cold" in sx.dumps(p):
+            continue
+        reacts = [(rng.randrange(3), ["unsub-self"])] if rng.random() < 0.2 else []
+        cases.append((scn(srcs=[src([s0], rng.random() < 0.3)], conns=[[kind, ["cold", 0]]], handles=1, script_=[sub(0, p, *reacts)]), {"k": "conn-cold"}))
     # unbounded producers
     for _ in range(400 if thorough else 80):
         p = ["repeat", rng.choice(items)]
